@@ -21,7 +21,7 @@
 //!        fd 1/2 is scripted through the sc-shim: kernel tokens a<k> (returns k) | o (returns 0 for an empty buffer) |
 //!        i (EINTR) | e<errno>; abstract k<n> = accept min(n, offered).  Past the script the kernel takes everything.
 //!        Answer: `<done|panic> sink=<bytes the kernel took, in order> used=<tokens consumed> fd=<1|2|-|mixed>`, or
-//!        `runaway calls=<n> ..` when the macro was still calling write after 20000 calls (unwound by the scripted kernel).
+//!        `runaway calls=<n> ..` when the macro was still calling write after 5000 calls (unwound by the scripted kernel).
 //! Answer: `<ok [n]|err os <e>|err user|err uncat|panic> buf=|sink=<hex> used=<tokens consumed>`; with `--detail`
 //! additionally ` # log=<offered>/<carried>,.. caps=<capacities after each growth> cap=<final> uninit=<0|1>`.
 //!
@@ -601,7 +601,7 @@ fn run_wfmt(gen: bool, detail: bool, a: &[&str]) -> Option<String> {
 
 // ---------------------------------------------------------------------------------------------
 // The print macros (tiny-std/src/unix/print.rs) against a scripted `write` system call.
-const MAX_WRITE_CALLS: usize = 20_000;
+const MAX_WRITE_CALLS: usize = 5_000;
 struct Kern {
     runaway: bool,
     toks: Vec<WTok>,
